@@ -38,6 +38,9 @@ ASSUMPTIONS = [
 ]
 
 
+# functions that stay calls when the ingest pipelines are analysed with their same-module helpers expanded in place
+PIPE_KEEP = {"write_patches", "write_patches_unthreaded", "split_into_patches", "assign_patch_centers", "get_patch_centers", "load_patches", "create_patch_centers", "groupby", "new_filereader"}
+
 def rule_r1(prog, res) -> None:
     """reader slice arithmetic tiles the input (shared with C18.R2)"""
     sub = type(res)("C18", prog, res.tier)
@@ -440,6 +443,9 @@ def rule_r4(prog, res) -> None:
         if call is None or ci.variant == "mpi" or not any("queue" in a for a in ci.inst_attrs):
             continue
         res.touch(call)
+        from ..inline import inlined
+
+        call = inlined(prog, call, keep=PIPE_KEEP)  # a helper that splits and enqueues is looked through
         cfg = cfg_of(call.node)
         putn = [nd for nd in cfg.nodes if any(e.kind == "ipc" and e.op == "queue.put" for c in nd.calls() for e in classify_call(prog, call, c))]
         split = [c for c in calls_in(call) if any(t.name == "split_into_patches" for t in prog.resolve_call(call, c).funcs())]
@@ -501,6 +507,9 @@ def rule_r5(prog, res) -> None:
         m = ci.methods.get("_get_next_chunk")
         if m is None:
             continue
+        from ..inline import inlined
+
+        m = inlined(prog, m, keep=PIPE_KEEP)  # a shared chunk-building helper of the reader classes is looked through
         for c in calls_in(m):
             if create in prog.resolve_call(m, c).funcs():
                 n += 1
@@ -560,7 +569,10 @@ def rule_r6(prog, res) -> None:
     """sibling agreement of the ingest pipelines"""
     cw = prog.find_class("CatalogWriter")
     sites = []
-    for fi in prog.funcs:
+    from ..inline import all_inlined
+
+    pipe_funcs = all_inlined(prog, keep=PIPE_KEEP)  # helpers that build the writer / split the chunk are looked through
+    for fi in pipe_funcs:
         for c in calls_in(fi):
             if cw in prog.resolve_call(fi, c).classes():
                 sites.append((fi, c))
@@ -576,7 +588,11 @@ def rule_r6(prog, res) -> None:
             if v is None:
                 res.violation("C02.R6", fi, c, f"this pipeline variant constructs the writer without {need}= (siblings pass it): default differs from what the caller asked for", key_extra=f"writer-kw-{need}")
             else:
-                # the value must be the function's own parameter / field of that name
+                # the value must be the function's own parameter / field of that name (locals with one definition —
+                # among them the bindings of expanded helpers — are read as their definition)
+                from .common import expand_locals
+
+                v = expand_locals(fi.node, v, set(fi.param_names()), depth=4)
                 base = unparse(v).split(".")[-1]
                 if base != need:
                     if need == "chunk_info" and "copy_chunk_info" in unparse(v):
@@ -614,13 +630,18 @@ def rule_r6(prog, res) -> None:
             res.violation("C02.R6", f, f.node, "the reader is not entered as a context manager in this variant (file left open / not opened)", key_extra="reader-not-with")
     # split_into_patches receives xyz centres in every variant
     n = 0
-    for fi in prog.funcs:
+    for fi in pipe_funcs:
         for c in calls_in(fi):
             if any(t.name == "split_into_patches" for t in prog.resolve_call(fi, c).funcs()) and len(c.args) >= 2:
                 n += 1
                 res.touch(fi)
+                from .common import expand_locals
+
                 cen = c.args[1]
                 ok = _xyz(fi, cen)
+                if not ok:
+                    cen = expand_locals(fi.node, cen, set(fi.param_names()), depth=4)  # bindings of expanded helpers
+                    ok = _xyz(fi, cen)
                 if not ok and isinstance(cen, ast.Attribute) and fi.cls is not None:
                     init = fi.cls.methods.get("__init__")
                     if init is not None:
@@ -640,11 +661,42 @@ def rule_r6(prog, res) -> None:
         res.violation("C02.R6", apc, apc.node, "nearest-centre search does not compare xyz with xyz", key_extra="vq-units")
     sip = prog.func("split_into_patches")
     res.touch(sip)
-    gb = [c for c in calls_in(sip) if any(t.name == "groupby" for t in prog.resolve_call(sip, c).funcs())]
-    if gb and all(len(c.args) == 2 and isinstance(c.args[0], ast.Name) and "id" in c.args[0].id and isinstance(c.args[1], ast.Name) and c.args[1].id == "chunk" for c in gb):
+    # decided on the symbolic store (tuple-returning helpers looked through): the keys handed to groupby are patch ids
+    # (nearest-centre assignment or the popped id column), the values are the records of the chunk
+    from .. import symx
+
+    chunk_p = sip.param_names()[0]
+    n_gb = 0
+    bad_gb = None
+    for p in symx.explore(prog, sip, inline=symx.inline_private_helpers(prog, public={"assign_patch_centers", "groupby"})):
+        if p.outcome == "raise":
+            continue
+        for ev in p.calls("groupby"):
+            if len(ev.expr.args) != 2:
+                bad_gb = ev
+                continue
+            n_gb += 1
+            k, v = ev.expr.args
+
+            def role(e):
+                """'ids' | 'records' | None"""
+                e = symx.strip_wrappers(e)
+                if symx.calls_named(e, "assign_patch_centers"):
+                    return "ids"
+                if isinstance(e, ast.Subscript) and isinstance(e.slice, ast.Constant) and symx.calls_named(e.value, "pop"):
+                    return {0: "records", 1: "ids"}.get(e.slice.value)
+                if isinstance(e, ast.Name) and e.id == chunk_p:
+                    return "records"
+                return None
+
+            if role(k) != "ids" or role(v) != "records":
+                bad_gb = ev
+    if n_gb == 0 and bad_gb is None:
+        raise AnalysisError("C02.R6: split_into_patches does not group its records (groupby call not found)")
+    if bad_gb is None:
         res.ok("C02.R6", res.site(sip, "groupby"), "records are grouped by their patch ids (keys first, records second)")
     else:
-        res.violation("C02.R6", sip, sip.node, "groupby is not called as groupby(patch_ids, chunk)", key_extra="groupby-args")
+        res.violation("C02.R6", sip, bad_gb.node, f"groupby is not called with (patch ids, records of the chunk): {unparse(bad_gb.expr)[:90]}", key_extra="groupby-args")
 
 
 def rule_r7(prog, res) -> None:
